@@ -46,6 +46,17 @@ CHECKS['C04'] = dict(
     note='completeness compared up to the first-empty-spelling convention (Canon); derivation sets above the size TLC enumerates comfortably are avoided by short inputs (<=5 tokens)',
     ref='6/C04')
 
+CHECKS['C09'] = dict(
+    technique='TLA+ transcription of small_factors/_generate_repeats over count sets model-checked for all 0<=n<=m<=B (TLC) + trace validation of the really generated rules (derived count sets as a fixpoint), terminal form, and parses around the bounds judged by EBNF.tla',
+    text='TLC proves that the factored helper-rule construction matches exactly n..m for every pair up to B (150 quick / 400 thorough) including the loop invariant target_opt = 0..target-1; the rules the real lark generates for X~n..m are read back and TLC derives their count set as a least fixpoint; parses of x^k around the bounds for x a terminal, anonymous token, group, alternative group, optional group, rule, inlined rule and template argument are judged by the EBNF oracle (accept/reject, k consecutive children, no helper nodes) under Earley and LALR.',
+    note='0<=n<=m only; terminals that can match the empty string excluded as stated',
+    ref='6/C09')
+CHECKS['C20'] = dict(
+    technique='TLA+ machine of ForestVisitor.visit model-checked on all small graphs incl. cyclic (termination as liveness under fairness) + trace validation of real visit() callback sequences (synthetic graphs and real SPPFs) + TreeForestTransformer results judged against the derivation-set oracle',
+    text='TLC proves on every graph with 3 inner nodes and a token leaf (successor lists with repetitions, both single_visit settings) that the walk terminates, keeps no node twice on the path, reports cycles exactly on back edges; the callback sequence of the real visit() on the same graphs, on random larger graphs and on the real forests of parses (cyclic grammars included) must be exactly the machine\'s; TreeForestTransformer(resolve_ambiguity=False) expanded must equal the set of unshaped derivation trees of the compiled rules (EBNF.tla over lark\'s compiled rules), resolve_ambiguity=True one of them, is_ambiguous false on single derivations; cyclic grammars: termination and every tree a valid derivation tree.',
+    note='unshaped derivations are over the compiled rules (C03 judges the compilation); three Earley lexers',
+    ref='6/C20')
+
 NOT_APPLICABLE = []
 
 
